@@ -1,6 +1,7 @@
 """Configuration of ./check C02 (see pylib/props.py)."""
 CFG = dict(
         coq=["props/C02.vo"],
+        tie=["gen/Tie_C02.vo"],
         model_vo=["model/Sorter.vo", "model/SorterSpec.vo", "model/Ingest.vo", "model/IngestSpec.vo"],
         extract="Ex_C02",
         level_text="Theorem C02_canonical: equal header and key and Permutation-equal rows with unique keys give the SAME "
@@ -21,6 +22,8 @@ CFG = dict(
         trusted=["table sums are compared for equality / inequality only; the model compares tables structurally "
                  "(columns, key, row count, blocks)", "the mock object store is wrapped in a mutex"],
         assumptions=["MeowHash / the object encodings are injective on the objects compared (premises Hb, Ht of C02_injective)",
-                     "sort.Slice returns a sorted permutation", "wrgl commit is run with --no-cache (the temp-branch cache keyed by "
-                     "file name and modification time is outside the modelled decision)"],
+                     "sort.Slice returns a sorted permutation", "wrgl commit is run with --no-cache: the temp-branch cache of ensureTempCommit "
+                     "(reuse of <branch>-tmp when its message is the file name, its time is not before the file's mtime and the "
+                     "key is equal) is consulted before the table-id comparison and is NOT modelled; with it a file whose content "
+                     "changed while its mtime did not advance is reported unchanged (observation recorded, out of scope)"],
 )
